@@ -413,6 +413,22 @@ def local_to_arr(L, st=None):
         if L.fill is not None:
             return Arr([(fresh("i"), c) for c in L.shape], L.fill)
         return None
+    if len(L.shape) == 2 and L.shape[0].as_int() is not None and all(r[0] != "opaque" and not r[0] and len(r[1]) == 1 and r[1][0].as_int() is not None and len(r) == 3 for r in L.stores):
+        R = L.shape[0].as_int(); Cn = L.shape[1]
+        rv, cv = fresh("r"), fresh("c")
+        rows = {}
+        for r in L.stores: rows[r[1][0].as_int() % R] = r[2]
+        body = None
+        from .libmodel import _cond_eq
+        for k in range(R - 1, -1, -1):
+            val = rows.get(k, L.fill if L.fill is not None else Opaque(f"row {k} of {L.name} never set"))
+            A = as_arr(val) if isinstance(val, (Arr, ArrParam)) else None
+            if A is not None:
+                if A.ndim != 1 or not (A.axes[0][1].eq(Cn) or A.axes[0][1].as_int() == 1): return None
+                b = subst_val(A.body, {A.axes[0][0]: X.var(cv) if A.axes[0][1].eq(Cn) else X.const(0)})
+            else: b = val
+            body = b if body is None else mk_pv(_cond_eq(X.var(rv), X.const(k), f"{rv}=={k}"), b, body)
+        return Arr([(rv, L.shape[0]), (cv, Cn)], body)
     rec = L.stores[-1]
     if rec[0] == "opaque": return None
     binders, sidx, val = rec[0], rec[1], rec[2]
@@ -474,16 +490,38 @@ def arr_index(A, j):
     return body
 
 
+def sum_over(var, count, body):
+    """sum_{var<count} body for a body that may be a decision tree; conditions depending on the bound variable
+    are resolved by explicit expansion when the count is a small constant, else the result is opaque."""
+    if isinstance(body, PV):
+        dep = any(var in _cond_fvs(c) for c in _all_conds(body))
+        if dep:
+            k = count.as_int() if isinstance(count, X) else None
+            if k is None or k > 32: return Opaque("sum of a piecewise body whose conditions depend on the summation index")
+            tot = X.const(0)
+            for i in range(k):
+                tot = lift2("+", tot, subst_val(body, {var: X.const(i)}))
+            return tot
+    return lift1(lambda b: mk_sum(var, count, b), body)
+
+
+def _all_conds(v, acc=None):
+    acc = acc if acc is not None else []
+    if isinstance(v, PV):
+        acc.append(v.cond); _all_conds(v.hi, acc); _all_conds(v.lo, acc)
+    return acc
+
+
 def arr_sum(A, axis, mean=False, keepdims=False):
     if axis is None:
         body = A.body
         tot = X.const(1)
         for v, c in reversed(A.axes):
-            body = lift1(lambda b, v=v, c=c: mk_sum(v, c, b), body); tot = tot * c
+            body = sum_over(v, c, body); tot = tot * c
         return lift2("/", body, tot) if mean else body
     if axis < 0: axis += A.ndim
     v, c = A.axes[axis]
-    body = lift1(lambda b: mk_sum(v, c, b), A.body)
+    body = sum_over(v, c, A.body)
     if mean: body = lift2("/", body, c)
     rest = list(A.axes[:axis]) + ([(fresh("k"), X.const(1))] if keepdims else []) + list(A.axes[axis + 1:])
     if rest: return Arr(rest, body)
@@ -499,7 +537,7 @@ def arr_matmul(A, B):
         return Opaque(f"matmul contraction lengths differ: {ca!r} vs {cb!r}")
     bb = subst_val(B.body, {vb: X.var(va)})
     prod = lift2("*", A.body, bb)
-    body = lift1(lambda b: mk_sum(va, ca, b), prod)
+    body = sum_over(va, ca, prod)
     axes = list(A.axes[:-1]) + list(B.axes[1:])
     if axes: return Arr(axes, body)
     return body
